@@ -48,7 +48,6 @@ def jobs(tier):
            ("auto.monotone", "job_auto", {}),
            ("auto.path", "job_auto_path", {}),
            ("metafile.int", "job_metafile", dict(kind="int")),
-           ("config.route", "job_config", dict(route="config-pass")),
            ("auto.history.grow-in-place", "job_auto_history", {})]
     for n in (1, 2, 3):
         out.append(("config.end-to-end.n%d" % n, "job_config_e2e", dict(n=n, route="config")))
